@@ -48,25 +48,17 @@ Definition wb_var_bytes (b : obytes) : list N :=                                
 Definition wb_bytes (b : obytes) : list N :=                                    (* writeBytes / crc32Writer.writeBytes *)
   match b with Some l => put_bes 4 (zlen l) ++ l | None => put_bes 4 (-1) end.
 
-(* time.Time.Sub saturates at the int64 range of time.Duration *)
-Definition sat64 (z : Z) : Z := if z <? - ZM63 then - ZM63 else if ZM63 <=? z then ZM63 - 1 else z.
-Definition max_timeout : Z := 2147483647 * 1000000.
-Definition min_timeout : Z := -2147483648 * 1000000.
-(* time.go milliseconds(d): clamps to [minTimeout, maxTimeout] then int32(d / time.Millisecond) *)
-Definition milliseconds (d : Z) : Z :=
-  let d := if max_timeout <? d then max_timeout else if d <? min_timeout then min_timeout else d in
-  Z.quot d 1000000.
+(* the record's timestamp delta: timestamp(msg.Time) - timestamp(baseTime), an int64 *)
+Definition ts_delta (base_ns ns : Z) : Z := wrap64 (ts_ms ns - ts_ms base_ns).
 
 Definition hdr_size (h : header) : Z := var_string_len (fst h) + var_bytes_len (snd h).
 Definition record_size (base_ns off : Z) (m : irec) : Z :=                      (* recordSize *)
-  let d := sat64 (i_ns m - base_ns) in
-  1 + var_int_len (milliseconds d) + var_int_len off + var_bytes_len (i_key m) + var_bytes_len (i_val m) +
+  1 + var_int_len (ts_delta base_ns (i_ns m)) + var_int_len off + var_bytes_len (i_key m) + var_bytes_len (i_val m) +
   (var_int_len (zlen (i_hdrs m)) + zsum (map hdr_size (i_hdrs m))).
 Definition write_hdr (h : header) : list N :=
   put_varint (zlen (fst h)) ++ fst h ++ wb_var_bytes (snd h).
 Definition write_record (base_ns off : Z) (m : irec) : list N :=                (* writeRecord *)
-  let d := sat64 (i_ns m - base_ns) in
-  put_varint (record_size base_ns off m) ++ put_bes 1 0 ++ put_varint (milliseconds d) ++ put_varint off ++
+  put_varint (record_size base_ns off m) ++ put_bes 1 0 ++ put_varint (ts_delta base_ns (i_ns m)) ++ put_varint off ++
   wb_var_bytes (i_key m) ++ wb_var_bytes (i_val m) ++
   put_varint (zlen (i_hdrs m)) ++ concat (map write_hdr (i_hdrs m)).
 
@@ -275,10 +267,16 @@ Fixpoint p_inner (fuel : nat) (bs : list N) (acc : list orec) {struct fuel} : op
     end
   end.
 
+(* the wrapper carries the absolute offset of its last inner message; the inner offsets are
+   relative (and need not be contiguous after log compaction) *)
 Definition rebase (base : Z) (recs : list orec) : list orec :=
-  if base =? 0 then recs
-  else let last := zlen recs - 1 in
-       map (fun r => mk_rec (base - (last - o_off r)) (o_ts r) (o_key r) (o_val r) (o_hdrs r)) recs.
+  match rev recs with
+  | [] => recs
+  | lr :: _ =>
+    if base =? 0 then recs
+    else let last := o_off lr in
+         map (fun r => mk_rec (base - (last - o_off r)) (o_ts r) (o_key r) (o_val r) (o_hdrs r)) recs
+  end.
 
 (* readFromVersion1 *)
 Definition p_read_v1 (bs : list N) : pres (option preader) :=
